@@ -14,7 +14,7 @@ import time
 
 VERIF = os.path.dirname(os.path.dirname(os.path.abspath(__file__)))
 REPO = os.environ.get("VERIF_REPO", "/repo")
-BUILD = os.path.join(VERIF, ".build")
+BUILD = os.environ.get("VERIF_BUILD_DIR") or os.path.join(VERIF, ".build")
 CACHE = os.path.join(VERIF, ".cache")
 
 PARSER_GO = "pkg/parsing/parser/parser.go"
